@@ -29,7 +29,7 @@ def base : List Op :=
   [.edit (.addDim "S" true), .edit (.addAttr "S" "L" false none), .edit (.addAttr "S" "T" true (some "L")),
    .edit (.addDim "D" false), .edit (.addAttr "D" "A" false none), .edit (.addAttr "D" "B" false none), .update]
 
-def run (ops : List Op) : World := ops.foldl World.step (World.init 0)
+def run (ops : List Op) : World := ops.foldl World.step (World.init 0 defaultTracers)
 
 def keygenOf (w : World) (p : String) : Option Usk :=
   match w.msk.structure_.uskRights (pol p) with
@@ -156,3 +156,23 @@ refreshed authorised key does -/
   pure (decaps ub x' == none && decaps ra.2.2.1 x' == some s')) == some true
 
 end CC.Props.NonVacuity
+
+/-! Reachable worlds at a higher tracing level (4 tracers): the hypotheses of the reachable-world
+theorems are met there as well, identifiers have 4 markers, encapsulations 4 traps, and an
+authorised key opens. -/
+namespace CC.Props.NonVacuityLevels
+open CC CC.Props.NonVacuity
+
+def run4 (ops : List Op) : World := ops.foldl World.step (World.init 0 4)
+
+#guard (run4 base).msk.ntracers == 4
+#guard ((keygenOf (run4 base) "S::T && D::A").map (fun u => (u.id.length, u.nps))) == some (4, 4)
+#guard ((encapsOf (run4 base) "S::L && D::A" 1000).map (fun p => p.2.ntraps)) == some 4
+#guard (match keygenOf (run4 base) "S::T && D::A", encapsOf (run4 base) "S::L && D::A" 1000 with
+  | some u, some (s, x) => decaps u x == some s
+  | _, _ => false)
+#guard (match keygenOf (run4 base) "S::L && D::B", encapsOf (run4 base) "S::T && D::A" 1000 with
+  | some u, some (_, x) => decaps u x == none
+  | _, _ => false)
+
+end CC.Props.NonVacuityLevels
